@@ -777,5 +777,111 @@ def probe_known(ctx, k):
     return False
 
 
+def replay(ctx, payload):
+    """re-run the oracle of a recorded violation; True = the recorded input no longer fails"""
+    v = payload.get('violation')
+    if not v:
+        return None
+    inp = v['input']
+    of = ctx.of
+    try:
+        if 'state' in inp:
+            from openfermion.utils import rdm_mapping_functions as Rm
+            n, Np = inp['n'], inp['N']
+            psi = np.zeros(2 ** n, dtype=complex)
+            for k, (re_, im_) in inp['state'].items():
+                psi[int(k, 2)] = complex(re_, im_)
+            d = direct_rdms(psi, n)
+            holes = n - Np
+            table = {
+                'two_pdm_to_one_pdm': (lambda: Rm.map_two_pdm_to_one_pdm(d['tpdm'], Np), 'opdm'),
+                'two_pdm_to_two_hole': (lambda: Rm.map_two_pdm_to_two_hole_dm(d['tpdm'], d['opdm']), 'tqdm'),
+                'two_hole_to_two_pdm': (lambda: Rm.map_two_hole_dm_to_two_pdm(d['tqdm'], d['opdm']), 'tpdm'),
+                'two_hole_to_one_hole': (lambda: Rm.map_two_hole_dm_to_one_hole_dm(d['tqdm'], holes), 'oqdm'),
+                'one_pdm_to_one_hole': (lambda: Rm.map_one_pdm_to_one_hole_dm(d['opdm']), 'oqdm'),
+                'one_hole_to_one_pdm': (lambda: Rm.map_one_hole_dm_to_one_pdm(d['oqdm']), 'opdm'),
+                'two_pdm_to_ph': (lambda: Rm.map_two_pdm_to_particle_hole_dm(d['tpdm'], d['opdm']), 'phdm'),
+                'ph_to_two_pdm': (lambda: Rm.map_particle_hole_dm_to_two_pdm(d['phdm'], d['opdm']), 'tpdm'),
+                'ph_to_one_pdm': (lambda: Rm.map_particle_hole_dm_to_one_pdm(d['phdm'], Np, n), 'opdm'),
+            }
+            if 'map' in inp:
+                call, target = table[inp['map']]
+                return bool(err(np.asarray(call()) - d[target]) <= TOL)
+            if inp.get('fn') == 'expectation':
+                o1, o2 = np.array(inp['one_body']), np.array(inp['two_body'])
+                op = of.InteractionOperator(inp['constant'], o1.copy(), o2.copy())
+                e1 = complex(of.InteractionRDM(d['opdm'].copy(), d['tpdm'].copy()).expectation(op))
+                Hd = inp['constant'] * np.eye(2 ** n, dtype=complex) + dense_one(o1) + dense_two(o2)
+                ref = np.vdot(psi, Hd @ psi)
+                ok = abs(e1 - ref) <= TOL * max(1.0, abs(ref))
+                if n <= 3:
+                    herm = of.InteractionOperator(inp['constant'], (o1 + o1.T) / 2, (o2 + o2.transpose(3, 2, 1, 0)) / 2)
+                    e2 = complex(of.InteractionRDM(d['opdm'].copy(), d['tpdm'].copy()).expectation(of.jordan_wigner(herm)))
+                    Hh = inp['constant'] * np.eye(2 ** n, dtype=complex) + dense_one((o1 + o1.T) / 2) + dense_two((o2 + o2.transpose(3, 2, 1, 0)) / 2)
+                    ref2 = np.vdot(psi, Hh @ psi)
+                    ok = ok and abs(e2 - ref2) <= TOL * max(1.0, abs(ref2))
+                return bool(ok)
+            if inp.get('fn') == 'get_interaction_rdm':
+                from openfermion.measurements import get_interaction_rdm
+                qop = of.QubitOperator()
+                for word in itertools.product('IXYZ', repeat=n):
+                    Mx = np.array([[1.0 + 0j]])
+                    for ch in word:
+                        Mx = np.kron(Mx, PAULI[ch])
+                    qop += of.QubitOperator(tuple((i, ch) for i, ch in enumerate(word) if ch != 'I'), np.vdot(psi, Mx @ psi))
+                rdm = get_interaction_rdm(qop, n)
+                return bool(err(rdm.one_body_tensor - d['opdm']) <= TOL and err(rdm.two_body_tensor - d['tpdm']) <= TOL)
+            return None
+        if 'occupied_indices' in inp:
+            from openfermion.ops.representations import interaction_operator as io
+            one, two = np.array(inp['one_body_integrals']), np.array(inp['two_body_integrals'])
+            n, occ, act, nuc = inp['n_spatial'], inp['occupied_indices'], inp['active_indices'], inp['nuclear_repulsion']
+            core, o_new, t_new = io.get_active_space_integrals(one.copy(), two.copy(), list(occ), list(act))
+            idx, sgn = sector_embed(n, occ, act)
+            block = molecular_dense(nuc, one, two)[np.ix_(idx, idx)] * np.outer(sgn, sgn)
+            if err(block - molecular_dense(nuc + core, np.array(o_new, dtype=float), np.array(t_new))) > TOL:
+                return False
+            mol = of.chem.MolecularData(geometry=[('H', (0, 0, 0)), ('H', (0, 0, 0.7))], basis='sto-3g', multiplicity=1,
+                                        charge=0, filename='/tmp/w/H/_c17_never_written')
+            mol.one_body_integrals, mol.two_body_integrals, mol.nuclear_repulsion = one.copy(), two.copy(), nuc
+            act_op = mol.get_molecular_hamiltonian(list(occ), list(act))
+            m = len(act)
+            Hop = act_op.constant * np.eye(4 ** m, dtype=complex) + dense_one(act_op.one_body_tensor) + dense_two(act_op.two_body_tensor)
+            return bool(err(block - Hop) <= 1e-7)
+        if 'two_body_integrals' in inp and 'spin_basis' in inp and 'eightfold' not in inp:
+            from openfermion.circuits import low_rank
+            from openfermion.chem.molecular_data import spinorb_from_spatial
+            n, spin, two = inp['n_spatial'], inp['spin_basis'], np.array(inp['two_body_integrals'])
+            h = 0.5 * spinorb_from_spatial(np.zeros((n, n)), two)[1] if spin else 0.5 * two
+            full = n * n
+            lam, sq, corr, tv0 = low_rank.low_rank_two_body_decomposition(h.copy(), final_rank=full, spin_basis=spin)
+            ws = [abs(lam[l]) * np.sum(np.absolute(sq[l])) ** 2 for l in range(full)]
+            total = float(sum(ws))
+            if 'final_rank' not in inp and 'truncation_threshold' not in inp:
+                return True   # the recorded failure was an exception of the full-rank call, which now returned
+            if 'final_rank' in inp:
+                lam2, sq2, _, tv = low_rank.low_rank_two_body_decomposition(h.copy(), final_rank=inp['final_rank'], spin_basis=spin)
+            else:
+                lam2, sq2, _, tv = low_rank.low_rank_two_body_decomposition(h.copy(), truncation_threshold=inp['truncation_threshold'],
+                                                                           spin_basis=spin)
+            L = len(lam2)
+            scale = TOL * max(1.0, total)
+            ok = abs(float(sum(ws[L:])) - tv) <= scale
+            if 'truncation_threshold' in inp and inp['truncation_threshold'] >= 0:
+                th = inp['truncation_threshold']
+                ok = ok and tv <= th + scale and L >= 1 and all(float(sum(ws[k:])) > th for k in range(1, L))
+            if inp.get('final_rank') == full:
+                Href = dense_two(h) if spin else molecular_dense(0.0, np.zeros((n, n)), 2 * h)
+                R = dense_one(corr)
+                for l in range(len(lam)):
+                    O = dense_one(sq[l])
+                    R = R + lam[l] * O @ O
+                ok = ok and err(Href - R) <= TOL * max(1.0, err(Href))
+            return bool(ok)
+    except Exception:
+        return False
+    return None
+
+
 def run(ctx):
     return [stream_chemist(ctx), stream_lowrank(ctx), stream_integrals(ctx), stream_rdm(ctx)]
